@@ -13,7 +13,9 @@ Message(code=GET, uri=text) / get_request_uri(), every option set is put on a
 message and composed, and the results are compared with what TLC printed.
 
 Clauses
-  C16_Decompose          options of Text(u, p) are Options(u)
+  C16_Decompose          options of Text(u, p) are Options(u) -- on a fresh message and on one that
+                         carried another URI before (second set_request_uri, Message.copy(uri=...))
+  C16_PortWithDestination  the destination of a decomposed URI carries the URI's port
   C16_ComposeNormalForm  get_request_uri() is Compose(Options(u)) (default port may be spelled out)
   C16_RecomposeStable    the composed URI decomposes to the same options and composes to itself
   C16_Injective          distinct (non-degenerate) option sets compose to distinct URIs
@@ -26,6 +28,7 @@ import json
 import os
 import sys
 import time
+import zlib
 from concurrent.futures import ThreadPoolExecutor
 from multiprocessing import Pool
 
@@ -45,19 +48,21 @@ CONSTANTS
   BaseSegs = %(basesegs)d
   BaseBudget = %(basebudget)d
   Profiles = {%(profiles)s}
+  Product = "%(product)s"
   PairMode = %(pair)s
   Emit = %(emit)s
 INVARIANT TypeOK
 %(invariants)s
 """
 
-# code points: a / ? & = % # space + ~ U+00E5 U+20AC U+1F600
-ALPHABET_QUICK = [97, 47, 63, 38, 61, 37, 35, 32, 43, 126, 229, 8364, 128512]
-# ... plus Z : @ ; [ 1 U+00C5
-ALPHABET_THOROUGH = ALPHABET_QUICK + [90, 58, 64, 59, 91, 49, 197]
+# code points: a / ? & = % # space + ~ ; U+00E5 U+1F600, and U+0301 (combining acute: "a" U+0301 composes
+# under NFC), U+212B (ANGSTROM SIGN, NFC turns it into U+00C5; also the three-byte representative)
+ALPHABET_QUICK = [97, 47, 63, 38, 61, 37, 35, 32, 43, 126, 59, 229, 128512, 769, 8491]
+# ... plus Z : @ [ 1 U+00C5 U+20AC
+ALPHABET_THOROUGH = ALPHABET_QUICK + [90, 58, 64, 91, 49, 197, 8364]
 
 GEN_INVARIANTS = ["FixedPoint", "EscapesDenoteSegments", "LiteralReadingUnstable", "EmitCases"]
-PAIR_INVARIANTS = ["ComposeInjective", "TextUnambiguous"]
+PAIR_INVARIANTS = ["ComposeInjective", "TextUnambiguous", "ReuseIndependent", "EmitPairs"]
 
 
 def _strset(xs):
@@ -76,8 +81,9 @@ def gen_runs(tier):
     the reference base."""
     if tier == "quick":
         wide = dict(
-            schemes=["coap", "coaps", "coaptcp"],
-            hosts=["host", "aring", "bigring", "arabic", "arabmix", "ip4a", "ip6lo", "ip6zone"],
+            schemes=["coap", "coaps", "coaptcp", "coapws"],
+            hosts=["host", "aring", "bigring", "arabic", "arabmix", "numeric", "emptylabel", "three", "five", "trail",
+                   "ip4a", "ip6lo", "ip6zoneU"],
             ports=[0, 5683, 61616],
             alphabet=ALPHABET_QUICK,
             maxpath=2,
@@ -86,6 +92,7 @@ def gen_runs(tier):
             basesegs=1,
             basebudget=1,
             profiles=[1, 2, 3, 4, 5, 6, 7, 9],
+            product="star",
         )
         deep = dict(
             schemes=["coap"],
@@ -98,11 +105,13 @@ def gen_runs(tier):
             basesegs=1,
             basebudget=1,
             profiles=[1, 4, 5, 6],
+            product="star",
         )
         return [("wide", wide, "all", 10), ("deep", deep, "cases", 3)]
     wide = dict(
         schemes=["coap", "coaps", "coaptcp", "coapstcp", "coapws", "coapsws"],
-        hosts=["host", "dotted", "aring", "bigring", "numeric", "arabic", "arabmix", "ip4a", "ip4b", "ip6lo", "ip6db8", "ip6zone"],
+        hosts=["host", "dotted", "aring", "bigring", "numeric", "emptylabel", "three", "five", "trail", "arabic", "arabmix",
+               "ip4a", "ip4b", "ip6lo", "ip6db8", "ip6zone", "ip6zoneU"],
         ports=[0, 1, 80, 5683, 5684, 61616, 65535],
         alphabet=ALPHABET_THOROUGH,
         maxpath=2,
@@ -111,48 +120,53 @@ def gen_runs(tier):
         basesegs=1,
         basebudget=1,
         profiles=[1, 2, 3, 4, 5, 6, 7, 8, 9, 10],
+        product="cross",
     )
     deep = dict(
         schemes=["coap"],
         hosts=["host"],
         ports=[0],
-        alphabet=[97, 37, 229],
+        alphabet=[97, 37, 229, 769],
         maxpath=2,
         maxquery=2,
         rich=4,
         basesegs=1,
         basebudget=1,
         profiles=[1, 2, 3, 4, 5, 6],
+        product="star",
     )
-    deep3 = dict(deep, alphabet=[97, 37, 47, 38, 8364], rich=3)
+    deep3 = dict(deep, alphabet=[97, 37, 47, 38, 8364, 8491], rich=3)
     return [("wide", wide, "all", 8), ("deep", deep, "cases", 3), ("deep3", deep3, "cases", 3)]
 
 
 def pair_consts(tier):
+    """Pair mode: two URIs side by side; also printed as <<URI the message carried, URI set on it>>."""
     if tier == "quick":
         return dict(
             schemes=["coap"],
-            hosts=["host"],
+            hosts=["host", "ip6lo"],
             ports=[0],
-            alphabet=[97, 47, 38, 37, 229],
+            alphabet=[97, 47, 38, 37],
             maxpath=2,
             maxquery=2,
             rich=1,
-            basesegs=2,
+            basesegs=1,
             basebudget=1,
             profiles=[1, 4, 6],
+            product="full",
         )
     return dict(
         schemes=["coap"],
-        hosts=["host"],
+        hosts=["host", "ip6lo"],
         ports=[0, 5683],
         alphabet=[97, 47, 63, 38, 37, 229],
         maxpath=2,
         maxquery=2,
         rich=1,
-        basesegs=2,
+        basesegs=1,
         basebudget=1,
         profiles=[1, 2, 4, 6],
+        product="full",
     )
 
 
@@ -168,6 +182,7 @@ def cfg_text(c, pair, emit, invariants):
         basesegs=c["basesegs"],
         basebudget=c["basebudget"],
         profiles=_intset(c["profiles"]),
+        product=c["product"],
         pair="TRUE" if pair else "FALSE",
         emit='"%s"' % emit,
         invariants="\n".join("INVARIANT " + i for i in invariants),
@@ -218,7 +233,7 @@ def parse_line(line):
 
 def case_lines(out):
     """{tag: [line, ...]} of the lines the spec printed."""
-    lines = {"C16U": [], "C16R": [], "C16H": []}
+    lines = {"C16U": [], "C16R": [], "C16H": [], "C16P": [], "C16L": []}
     for line in out.splitlines():
         if line.startswith('"<<\\"C16'):
             lines[line[5:9]].append(line)
@@ -357,7 +372,9 @@ def matches(ob, o):
     else:
         if ob["uri_host"] is not None:
             return "Uri-Host %r set for an IP literal" % (ob["uri_host"],)
-        if (ob["dest_host"] or "").lower() not in o["destok"]:
+        # the address is case-insensitive, a zone identifier (interface name) is not
+        addr, pct, zone = (ob["dest_host"] or "").partition("%")
+        if addr.lower() + pct + zone not in o["destok"]:
             return "destination host %r, expected one of %r" % (ob["dest_host"], o["destok"])
     port = ob["uri_port"] if ob["uri_port"] is not None else ob["dest_port"]
     if port is None:
@@ -369,6 +386,17 @@ def matches(ob, o):
     if ob["query"] != o["query"]:
         return "Uri-Query %r, expected %r" % (ob["query"], o["query"])
     return None
+
+
+def port_kept(ob, accept):
+    """'the port kept with the destination': the destination of a decomposed URI
+    carries the URI's port (a default port may be left implicit); TLC's option
+    sets give port and default."""
+    o = accept[0]
+    dp = ob["dest_port"]
+    if dp == o["port"] or (dp is None and o["port"] == o["dflt"]):
+        return None
+    return "the destination %r has port %r, the URI's port is %r (Uri-Port %r)" % (ob["dest_host"], dp, o["port"], ob["uri_port"])
 
 
 def match_any(ob, accept):
@@ -400,6 +428,9 @@ def check_recompose(g, accept, first_ob, case, out, what):
     if why is not None:
         out.append(_v("C16_RecomposeStable", nf, "%s: composed URI %r decomposes differently: %s" % (what, g, why), case))
         return
+    why = port_kept(ob2, accept)
+    if why is not None:
+        out.append(_v("C16_PortWithDestination", nf, "%s: composed URI %r: %s" % (what, g, why), case))
     if first_ob is not None:
         a = (first_ob["uri_host"], first_ob["path"], first_ob["query"])
         b = (ob2["uri_host"], ob2["path"], ob2["query"])
@@ -413,6 +444,36 @@ def check_recompose(g, accept, first_ob, case, out, what):
         return
     if g2 != g:
         out.append(_v("C16_RecomposeStable", nf, "%s: %r recomposes to %r (no fixed point)" % (what, g, g2), case))
+
+
+def reused_message(text, loader, accept, nf, case, out):
+    """The options of a URI do not depend on what the message carried before:
+    set the text on a message that was built from another URI (a second
+    set_request_uri, and Message.copy(uri=...))."""
+    if not loader or loader == text:
+        return
+    Message, GET = _A["Message"], _A["GET"]
+    for how in ("set_request_uri on", "copy(uri=...) of"):
+        try:
+            m0 = Message(code=GET, uri=loader)
+            if how.startswith("set"):
+                m0.set_request_uri(text)
+            else:
+                m0 = m0.copy(uri=text)
+            ob = observe(m0)
+        except Exception as e:
+            out.append(_v("C16_Decompose", "reused-message|" + nf, "%s a message that carried %r with %r raised %s" % (how, loader, text, _exc(e)), case))
+            continue
+        why = match_any(ob, accept) or port_kept(ob, accept)
+        if why is not None:
+            out.append(_v("C16_Decompose", "reused-message|" + nf, "%s a message that carried %r with %r: %s" % (how, loader, text, why), case))
+
+
+def eval_pair(case):
+    """Pair mode of the model: the message carried Text(v), Text(u) is set on it; expected Options(u)."""
+    out = []
+    reused_message(case["text"], case["loader"], case["accept"], case["nf"][0], case, out)
+    return out, None
 
 
 def eval_text(case):
@@ -436,6 +497,11 @@ def eval_text(case):
         why, nfs, re_accept = None, lit["nf"], lit["re"]
     if why is not None:
         out.append(_v("C16_Decompose", nf, "%r: %s" % (text, why), case))
+    else:
+        why = port_kept(ob, accept)
+        if why is not None:
+            out.append(_v("C16_PortWithDestination", nf, "%r: %s" % (text, why), case))
+    reused_message(text, case.get("loader"), accept + (lit["accept"] if lit else []), nf, case, out)
     try:
         g = m.get_request_uri()
     except Exception as e:
@@ -547,7 +613,7 @@ def eval_hostport(case):
     return out, None
 
 
-EVAL = {"text": eval_text, "opts": eval_opts, "reject": eval_reject, "hostport": eval_hostport}
+EVAL = {"text": eval_text, "opts": eval_opts, "reject": eval_reject, "hostport": eval_hostport, "pair": eval_pair}
 
 
 def _eval_chunk(chunk):
@@ -568,7 +634,7 @@ def _eval_chunk(chunk):
 def _eval_lines(job):
     """C16U lines as printed by TLC: parse, evaluate every text and the option
     set of every state; only what the verdict needs travels back."""
-    lines, all_variants = job
+    lines, all_variants, loaders, seed = job
     if not _A:
         _init_worker()
     viols, index, composed, drifts = [], [], [], []
@@ -579,6 +645,8 @@ def _eval_lines(job):
             tcases, ocase = state_cases(parse_line(line), all_variants)
             for case in tcases:
                 dig = expectation_digest(case)
+                # what the message carried before: one of the model's loader URIs, by text and seed
+                case["loader"] = loaders[(zlib.crc32(case["text"].encode()) + seed) % len(loaders)]
                 vs, drift = eval_text(case)
                 viols.extend(vs)
                 index.append((case["text"], dig))
@@ -599,6 +667,26 @@ def _eval_lines(job):
 
         return {"error": "case %r\n%s" % (case, traceback.format_exc())}
     return {"viols": viols, "index": index, "composed": composed, "drifts": drifts, "sample": sample}
+
+
+def _eval_pair_lines(lines):
+    """C16P lines of the pair run: <<text the message carried, text set on it, option sets, normal forms>>."""
+    if not _A:
+        _init_worker()
+    viols = []
+    line = None
+    try:
+        for line in lines:
+            _, tv, tu, aopts, anf = parse_line(line)
+            case = {"kind": "pair", "loader": text_of(tv), "text": text_of(tu), "accept": [opt_from_tuple(t) for t in aopts], "nf": [text_of(t) for t in anf]}
+            viols.extend(eval_pair(case)[0])
+    except MachineryError as e:
+        return {"error": str(e)}
+    except Exception:
+        import traceback
+
+        return {"error": "line %r\n%s" % (line and line[:300], traceback.format_exc())}
+    return {"viols": viols, "n": len(lines)}
 
 
 def _pool_map(fn, jobs):
@@ -674,7 +762,7 @@ def work(rep, args):
             cfg = "CoapUri_%s.cfg" % name
             wd.write(cfg, cfg_text(c, False, emit, GEN_INVARIANTS))
             jobs.append((name, cfg, workers))
-        wd.write("CoapUri_pair.cfg", cfg_text(pc, True, "none", PAIR_INVARIANTS))
+        wd.write("CoapUri_pair.cfg", cfg_text(pc, True, "pairs", PAIR_INVARIANTS))
         jobs.append(("pair", "CoapUri_pair.cfg", max(2, 16 - sum(w for _, _, w in jobs))))
         # the runs are independent: side by side, sharing the cores
         with ThreadPoolExecutor(len(jobs)) as ex:
@@ -692,7 +780,7 @@ def work(rep, args):
             raise MachineryError("CoapUri (%s run): spec-internal invariant %s fails; the model is inconsistent" % (name, r.violated))
     t_tlc = time.time() - t0
     pair = res["pair"]
-    ulines, static_lines = [], {"C16R": [], "C16H": []}
+    ulines, static_lines = [], {"C16R": [], "C16H": [], "C16L": []}
     per_run = {}
     for name, c, emit, workers in runs:
         r = res[name]
@@ -703,19 +791,30 @@ def work(rep, args):
         ulines += lines["C16U"]
         static_lines["C16R"] += lines["C16R"]
         static_lines["C16H"] += lines["C16H"]
+        static_lines["C16L"] += lines["C16L"]
         per_run[name] = {"states": r.distinct, "transitions": r.generated, "depth": r.depth, "constants": c, "wall_s": round(r.wall, 1)}
     nstates = len(ulines)
     rej, hp = build_static(static_lines)
     static = rej + hp
+    loaders = sorted({text_of(parse_line(l)[1]) for l in static_lines["C16L"]})
+    if len(loaders) < 2:
+        raise MachineryError("TLC printed no loader URIs")
+    plines = case_lines(pair.out)["C16P"]
+    pair.out = ""
+    if len(plines) != pair.distinct:
+        raise MachineryError("pair run: TLC found %d states but printed %d C16P lines" % (pair.distinct, len(plines)))
 
     t1 = time.time()
     all_variants = tier != "quick"
-    outs = _pool_map(_eval_lines, [(ch, all_variants) for ch in _chunks(ulines, max(20, min(400, nstates // 96 + 1)))])
+    outs = _pool_map(_eval_lines, [(ch, all_variants, loaders, args.seed) for ch in _chunks(ulines, max(20, min(400, nstates // 96 + 1)))])
     souts = _pool_map(_eval_chunk, _chunks(static, max(50, len(static) // 32 + 1)))
+    pouts = _pool_map(_eval_pair_lines, _chunks(plines, max(100, len(plines) // 32 + 1)))
     t_impl = time.time() - t1
     del ulines
 
     viols, drifts = [], []
+    for o in pouts:
+        viols.extend(o["viols"])
     text_exp, opt_nf, nf_opt = {}, {}, {}
     composed = {}
     ntext_evals = 0
@@ -780,7 +879,8 @@ def work(rep, args):
         if o["sample"]:
             samples += [sample(o["sample"][0]), sample(o["sample"][1])]
     samples += [sample(rej[len(rej) // 2]), sample(hp[len(hp) // 2])]
-    ncases = ntext_evals + len(opt_nf) + len(static)
+    npairs = sum(o["n"] for o in pouts)
+    ncases = ntext_evals + len(opt_nf) + len(static) + npairs
 
     classes = sorted({c["cls"] for c in rej})
     rep.coverage.update(
@@ -790,7 +890,9 @@ def work(rep, args):
             "generator_runs": per_run,
             "pair_run": {"states": pair.distinct, "transitions": pair.generated, "depth": pair.depth, "constants": pc, "wall_s": round(pair.wall, 1)},
             "exhaustive": True,
-            "spec_invariants": ["TypeOK"] + GEN_INVARIANTS[:3] + PAIR_INVARIANTS,
+            "spec_invariants": ["TypeOK"] + GEN_INVARIANTS[:3] + PAIR_INVARIANTS[:3],
+            "reused_message_pairs": npairs,
+            "loader_uris": loaders,
             "structured_uris": nstates,
             "texts": len(text_exp),
             "option_sets": len(opt_nf),
@@ -813,7 +915,8 @@ def work(rep, args):
         "non-ASCII characters are written unescaped only in reg-names (profiles 9, 10) and never upper-case letters",
         "a reg-name with percent-encoded upper-case letters ('h%4Fst') may decompose to the all-lower-case Uri-Host or to the one 6.4 step 5 gives literally; compose/decompose stability is judged on whichever the implementation produced",
         "a single empty query ('...?') and an empty userinfo / fragment delimiter are not judged (statement silent)",
-        "a default port may be spelled out or omitted in the composed URI",
+        "a default port may be spelled out or omitted in the composed URI, and left implicit in the destination",
+        "a host whose percent-decoded form is an IPv4 address ('1%2E2.3.4') is not generated: 6.4 gives Uri-Host '1.2.3.4', 6.5 composes 'coap://1.2.3.4/', which has no Uri-Host -- the RFC's own algorithms are unstable there (observed on the tree, not judged)",
         "bounds: %d structured URIs; wide run: alphabet of %d code points, <= %d segment characters on the reference base, <= %d on the others; deep run: alphabet of %d, <= %d characters"
         % (nstates, len(runs[0][1]["alphabet"]), runs[0][1]["rich"], runs[0][1]["basebudget"], len(runs[1][1]["alphabet"]), runs[1][1]["rich"]),
     ]
